@@ -126,6 +126,10 @@ def run(tier: str, seed: int) -> int:
         feat = {"jac": "callable", "callback": r.choice(["none", "false"]) if i % 4 else "false",
                 "ftarget": "none" if i % 4 else r.choice(["float", "callable", "int", "callable_int"]), "gtol_callable": False,
                 "scaler": r.choice(["const", "const", "packaged"]), "s": 10 ** r.uniform(-3, 3), "update": "none"}
+        if i % 5 == 2 and feat["scaler"] == "const":
+            # the factor as a Python int, a numpy integer, a float32 scalar or a 0-d array (exactly representable values)
+            feat["s_type"] = r.choice(["int", "np.int64", "np.float32", "0-d array", "np.float64"])
+            feat["s"] = float(r.choice([2, 3, 4, 7, 10, 100])) if feat["s_type"] in ("int", "np.int64") else 2.0 ** r.choice([-4, -2, -1, 1, 3, 5])
         cases.append({"seed": s, "features": feat})
     for i in range(n // 2):
         s = seed * 1_000_003 + 500_000 + i
